@@ -379,10 +379,11 @@ def _rec_prop(prop, rule):
                 Family("backoff", "rec", "RecTrace", rec_gen.generate("backoff", 120 * n, seed * 59 + int(prop[1:]))),
                 Family("inflight", "rec", "RecTrace", rec_gen.generate("inflight", 200 * n, seed * 61 + int(prop[1:]))),
                 Family("retrywindow", "rec", "RecTrace", rec_gen.generate("retrywindow", 250 * n, seed * 71 + int(prop[1:]))),
-                Family("lowwatermark", "rec", "RecTrace", rec_gen.generate("lowwatermark", 150 * n, seed * 73 + int(prop[1:])))]
+                Family("lowwatermark", "rec", "RecTrace", rec_gen.generate("lowwatermark", 150 * n, seed * 73 + int(prop[1:]))),
+                Family("refresh", "rec", "RecTrace", rec_gen.generate("refresh", 120 * n, seed * 79 + int(prop[1:])))]
         return design, fams, [prop], dict(
             rule=rule, nontrivial=lambda ops: any(o["op"] in ("fail", "inject") for o in ops),
-            assumptions=["virtual time (testing/synctest); operations are instantaneous; refresh loop disabled",
+            assumptions=["virtual time (testing/synctest); operations are instantaneous; refresh loop enabled in family refresh and a fifth of the other non-idle scripts",
                          "every commit to the reconciled table is observed at its linearization point (hook commit.stored)",
                          "pacing slack = 2 x rate-limiter interval + 2 ms"])
     return fn
@@ -392,7 +393,8 @@ PROPS = {
     "C14": _rec_prop("C14", "environment scripts: user upsert/delete/re-insert/status-only writes on 1-4 objects, per-call failure "
                             "patterns (<= 6 failures), writes injected while Update/Delete is in flight, round size 1/2/3/1000, batch and "
                             "single mode, backoff 50-3200 ms, pruning; after the last failure/change virtual time advances by "
-                            "(failures + 2) x (max backoff + 100 ms) and table and target are compared"),
+                            "(failures + 2) x (max backoff + 100 ms) and table and target are compared; family refresh runs the "
+                            "refresh loop (interval 120-700 ms) with failures and writes during refresh-triggered updates"),
     "C15": _rec_prop("C15", "as C14 with emphasis on user writes (update, delete, delete+re-insert, status-only change keeping the "
                             "pending id) placed between an operation and its status commit; every commit of the reconciler is "
                             "checked against the last operation for that object"),
